@@ -309,7 +309,9 @@ MS_DRAW_RW = [
     Rw("R8", r"debug_assert_eq!\(\s*extra_lines\.is_some\(\),\s*extra_lines\.as_ref\(\)\.map\(Vec::len\)\.unwrap_or_default\(\) > 0\s*\);", "assert(extra_lines matches Some(v) ==> v@.len() > 0);"),
     Rw("R5", r"let mut reap_indices = vec!\[\];", "let mut reap_indices = Vec::<usize>::new();"),
     RwFn("R3", r3_index_loops, count=3),
-    Rw("R5", r"member\s*\.draw_state\s*\.as_ref\(\)\s*\.map\(\|d\| d\.visual_line_count\(\.\., width\)\)\s*\.unwrap_or_default\(\)", "opt_line_count(&member.draw_state, width)"),
+    # R5b: `opt.as_ref().map(|d| E).unwrap_or_default()` -> `match &opt { Some(d) => E, None => Default }` (exact desugaring)
+    Rw("R5b", r"member\s*\.draw_state\s*\.as_ref\(\)\s*\.map\(\|d\| (.*?)\)\s*\.unwrap_or_default\(\)", r"(match &member.draw_state { Some(d) => \1, None => VisualLines::default() })", flags=re.S),
+    Rw("R10", r"d\.visual_line_count\(\.\., width\)", "visual_line_count(&d.lines, width)", count="any"),
     K.BOOL_OR_ASSIGN,
     Rw("R16", r"draw_state\.alignment = self\.alignment;", "draw_state.state.alignment = self.alignment;"),
     Rw("R5", r"draw_state\.lines\.extend_from_slice\(extra_lines\.as_slice\(\)\);", "extend_cloned(&mut draw_state.state.lines, extra_lines);"),
@@ -326,7 +328,7 @@ INSERT_RW = [
 
 UNIT = Unit(
     name="multi_state",
-    properties=["C02", "C03", "C04", "C18"],
+    properties=["C02", "C03", "C04", "C18", "C19"],
     prelude=["time", "gterm"],
     rlimit=200,
     trusted=[
@@ -436,6 +438,7 @@ UNIT = Unit(
                     ("C02-slot-cleared", "member_is_default(final(self).members@[idx as int])"),
                     ("frame", "final(self).draw_target == old(self).draw_target && final(self).orphan_lines == old(self).orphan_lines && final(self).zombie_lines_count == old(self).zombie_lines_count && final(self).alignment == old(self).alignment")]),
         ImplBlock("src/draw_target.rs", "AddAssign for VisualLines", D.VL_ADDASSIGN_SPEC),
+        ImplBlock("src/draw_target.rs", "From for VisualLines", D.VL_FROM_SPEC),
         Raw(MS_DRAW_SPEC), Raw(MS_ACCT_SPEC),
         Fn(**VLC_STUB),
         Fn("src/multi.rs", "MultiState", "width", ret="r",
